@@ -12,7 +12,8 @@ TIE = {'condorcet.Copeland/Schulze/MinimaxCondorcet/RankedPairs/KemenyYoung': 'c
 RULE = ('corpus; random pairwise dictionaries over 3..6 candidates (Kemeny <= 5): profile-derived (truncation, shared ranks, both '
         'unranked_at_bottom), arbitrary sparse, dense with exact ties, forced Condorcet winners, counts x 1e25; every entry of '
         'condorcet.EVALUATORS, n_seats 1..|C|. Compared with the model (exact list, ties as sets) and judged by the declarative '
-        'clauses: Condorcet winner elected alone; Smith-efficient winner in the brute-force Smith set; nobody dropped when '
+        'clauses: Condorcet winner elected alone; Kemeny refusal only when two best rankings differ within the first n places '
+        '(brute-force argmax); Smith-efficient winner in the brute-force Smith set; nobody dropped when '
         'n = |C|. non-trivial = no Condorcet winner or a pairwise tie or a missing reverse pair; distinct by case hash')
 PARTIAL = ['Benham / TidemanAlternative: covered with the STV model (C03/C04), not here']
 TRUSTED = []
@@ -54,6 +55,21 @@ def impl(c):
     return ok(enc_sel(cd.EVALUATORS[c['method']].evaluate(pw.pdict(c['votes']), c['n'])))
 
 
+def ref_kemeny_prefixes(votes, n):
+    """brute-force reference: the distinct first-n segments of the rankings with the greatest Kemeny score"""
+    import itertools
+    d = {(a, b): k for (a, b), k in votes}
+    cs = pw.cands(votes)
+    best, prefixes = None, set()
+    for perm in itertools.permutations(cs):
+        sc = sum(d.get((perm[i], perm[j]), 0) for i in range(len(perm)) for j in range(i + 1, len(perm)))
+        if best is None or sc > best:
+            best, prefixes = sc, {perm[:n]}
+        elif sc == best:
+            prefixes.add(perm[:n])
+    return prefixes
+
+
 def canon(c, wire):
     v = common.parse_sx(wire)
     if v[0] != 0:
@@ -72,7 +88,14 @@ def spec(c, io, mo):
     cw = pw.ref_cw(c['votes'])
     if v[0] != 0:
         if v[1] in (common.E['NIE'],) and m == 'kemeny_young':
-            return None
+            # the declared refusal (Tie.tie_rankings) is legitimate only when two best rankings differ within the
+            # first n places; in particular never for one seat when a Condorcet winner exists
+            if len(ref_kemeny_prefixes(c['votes'], c['n'])) >= 2:
+                return None
+            c['_class'] = cls + ':refusal'
+            if cw and c['n'] == 1:
+                return 'Kemeny-Young refuses (NotImplementedError) although %s is the Condorcet winner' % (cw,)
+            return 'Kemeny-Young refuses (NotImplementedError) although all best rankings agree on the first %d places' % c['n']
         if v[1] == common.E['VSE'] and m.startswith('rankedpairs'):
             c['_class'] = cls + ':vse'
             return 'ranked pairs refuses with VotingSystemError (several sources in the locked graph)'
